@@ -131,7 +131,7 @@ func (h *histRec) flush(enc *json.Encoder) {
 }
 
 // concOps draws ops over a deliberately tiny key space so that goroutines collide.
-func concOps(rnd *rand.Rand, cat *Catalog, n int, imm bool) []Op {
+func concOps(rnd *rand.Rand, cat *Catalog, n int, imm bool, sharedWriter bool) []Op {
 	r := "r1"
 	blobs := []string{"b1", "b2"}
 	mans := []string{"img", "idx", "sub"}
@@ -139,7 +139,13 @@ func concOps(rnd *rand.Rand, cat *Catalog, n int, imm bool) []Op {
 	pick := func(xs []string) string { return xs[rnd.Intn(len(xs))] }
 	var ops []Op
 	for len(ops) < n {
-		switch k := rnd.Intn(100); {
+		k := rnd.Intn(100)
+		if !sharedWriter && k >= 88 {
+			// one client-side writer object is not meant to be shared after a Commit (its location
+			// becomes the blob URL): over HTTP the goroutines leave the upload session alone
+			k = rnd.Intn(88)
+		}
+		switch {
 		case k < 10:
 			c := pick(blobs)
 			ops = append(ops, Op{Op: "PushBlob", R: r, C: c, DD: c, DS: len(cat.byID[c].Data)})
@@ -222,7 +228,7 @@ func runStress(enc *json.Encoder, cat *Catalog, rnd *rand.Rand, stack string, im
 	g := 2 + rnd.Intn(maxG-1)
 	progs := make([][]Op, g)
 	for i := range progs {
-		progs[i] = concOps(rnd, cat, 2+rnd.Intn(maxOps-1), imm)
+		progs[i] = concOps(rnd, cat, 2+rnd.Intn(maxOps-1), imm, !strings.Contains(stack, "http"))
 	}
 	if rnd.Intn(3) == 0 {
 		// contention: every goroutine starts with the same kind of write on the same key at the
